@@ -135,7 +135,9 @@ func yamlBlockUnsafe(s string) bool {
 	return false
 }
 
-var yamlRE = regexp.MustCompile(`(?m)^---$`)
+// A document separator line: "---", possibly followed by white space or by the
+// carriage return of a CRLF line end.
+var yamlRE = regexp.MustCompile(`(?m)^---[ \t\r]*$`)
 
 func yamlUnmarshalStream(in []byte) ([]any, error) {
 	// Differs from repeated yaml.Decode by treating "---\n---" as an empty
